@@ -1638,7 +1638,21 @@ func c19CheckRun(r *eng.RuleCtx, sh *c19sh, f *eng.ShCmd, mode string) {
 				}
 			case "assign":
 				for k, name := range ev.Names {
+					// the producer's output assigned as it is, or as a part of the assigned word (`"$(producer)"$'\n'"__main__"`)
+					hasProducer := false
 					if pc, _ := soleSub(ev.Raw[k]); pc != nil && pc.CmdName() == c19Producer {
+						hasProducer = true
+					}
+					if ev.Raw[k] != nil {
+						eng.ShExpansions(ev.Raw[k].Parts, false, func(p *eng.ShPart, _ bool) {
+							if p.Kind == eng.ShCmdSub && p.List != nil && len(p.List.Items) == 1 {
+								if x := soleCmd(p.List.Items[0]); x != nil && x.CmdName() == c19Producer {
+									hasProducer = true
+								}
+							}
+						})
+					}
+					if hasProducer {
 						if _, seen := idx["producer"]; !seen {
 							idx["producer"] = i
 						}
